@@ -57,6 +57,7 @@ ASSUMPTIONS = ['scipy sparse products / `+=` / bmat / np.unique are the substrat
 
 KINDS = ['dugue', 'newman', 'potts']
 _libc = ctypes.CDLL('libc.so.6')
+_PRISTINE = {}
 
 
 # ------------------------------------------------------------------------------------------------
@@ -181,7 +182,7 @@ def _impl_fit(desc):
         # observe, at the kernel boundary, which stream of rand() each refinement draws from: the seed Leiden.fit
         # hands to the kernel, or (signature without a seed) a seed set here just before the call
         import sknetwork.clustering.leiden as lm
-        orig = lm.optimize_refine_core
+        orig = _PRISTINE.setdefault('refine', lm.optimize_refine_core)   # never wrap a wrapper
 
         def recorder(*args, **kw):
             sd = kw.get('seed', args[12] if len(args) > 12 else None)
@@ -193,7 +194,11 @@ def _impl_fit(desc):
                 _libc.srand(sd)
             return orig(*args, **kw)
         lm.optimize_refine_core = recorder
-    est.fit(a, force_bipartite=fb)
+    try:
+        est.fit(a, force_bipartite=fb)
+    finally:
+        if desc['f'] == 'Leiden':
+            lm.optimize_refine_core = orig
     incs = [float(x) for x in re.findall(r'Increase: (\S+)', est.log)]
     if bip:
         labs = [int(x) for x in est.labels_row_] + [int(x) for x in est.labels_col_]
